@@ -154,10 +154,13 @@ class IRModule(nn.Module):
                 v = a[0] * p["c"]
             elif k == "inplace_stmt":
                 # an in-place op written as a bare statement on a fresh tensor: its result node has no users in the graph
-                v = a[0] * 1.0
-                v.add_(p["c"])
+                t_ = a[0] * 1.0
+                t_.add_(p["c"])
                 if p.get("clamp"):
-                    v.clamp_(min=-1.5)
+                    t_.clamp_(min=-1.5)
+                # the value handed on is a new tensor: nothing modifies in place a tensor that may later serve as a skip
+                # connection (outside the property's quantifier; unit_scale re-routes such statements to the branch only)
+                v = t_ * 1.0
             elif k == "mul":
                 v = a[0] * a[1]
             elif k == "neg":
